@@ -123,6 +123,15 @@ func EvalLit(pk *packages.Package, e ast.Expr, hint types.Type) *Lit {
 		return &Lit{Kind: "const", Const: tv.Value, Type: tv.Type, Pos: e.Pos()}
 	}
 	switch e := e.(type) {
+	case *ast.CallExpr:
+		// conversion of a constant, e.g. []byte("…")
+		if len(e.Args) == 1 {
+			if ftv, ok := info.Types[e.Fun]; ok && ftv.IsType() {
+				if atv, ok := info.Types[e.Args[0]]; ok && atv.Value != nil {
+					return &Lit{Kind: "const", Const: atv.Value, Type: ftv.Type, Pos: e.Pos()}
+				}
+			}
+		}
 	case *ast.CompositeLit:
 		t := hint
 		if ok && tv.Type != nil {
